@@ -235,6 +235,7 @@ class Repo:
             if 'match ' in text:
                 from .desugar import desugar
                 tree, _n = desugar(tree)
+                self.n_match_desugared = getattr(self, 'n_match_desugared', 0) + _n
             m = Module(name, p, tree, text, is_pkg)
             m.functions = FuncTable()
             m.functions.repo, m.functions.module = self, m
